@@ -18,6 +18,8 @@ THEOREMS = [
     "Baize.Range.order_independent",
     "Baize.Range.parseRange_sound",
     "Baize.Range.source_pinned",
+    "Baize.Range.header_text_specs",
+    "Baize.Range.grammatical_header",
 ]
 MANIFEST = {
     "technique": "Lean 4 proof (induction over the spec list) + differential correspondence of the Lean model "
